@@ -81,8 +81,13 @@ def body():
     RWG = api.function_space(g, "RWG", 0)
     SNC = api.function_space(g, "SNC", 0)
     RWGs = api.function_space(g, "RWG", 0, segments=[0, 10], include_boundary_dofs=True, truncate_at_segment_edge=False)
+    g2 = api.Grid(V + np.array([[7.0], [1.0], [0.0]]), E, np.array([0, 5, 10, 0, 5, 10, 0, 5]))     # a second, disjoint grid
+    P1b = api.function_space(g2, "P", 1)
+    P1w = api.function_space(g, "P", 1, swapped_normals=[5])
     jobs = [
         ("laplace.single_layer P1s", lambda: ops.laplace.single_layer(D0, P1s, P1s).weak_form()),
+        ("laplace.single_layer P1 (two grids)", lambda: ops.laplace.single_layer(P1, P1b, P1b).weak_form()),
+        ("helmholtz.hypersingular P1 (swapped normals)", lambda: ops.helmholtz.hypersingular(P1w, P1w, P1w, 0.5 + 0.2j).weak_form()),
         ("laplace.double_layer DP1", lambda: ops.laplace.double_layer(P1, D1, D1).weak_form()),
         ("laplace.hypersingular P1", lambda: ops.laplace.hypersingular(P1, P1, P1).weak_form()),
         ("sparse.identity P1", lambda: ops.sparse.identity(P1, P1, P1).weak_form()),
